@@ -156,6 +156,8 @@ fn check_case(case: &MapCase, st: &mut Stats) -> Check {
     }
     if st.cases % 4 == 0 {
         shared_values(&bytes, case.key, st)?;
+        shared_fresh_results(&bytes, 6, st)?;
+        deep_concurrent(&bytes, case, st)?;
     }
     stress(&bytes, &qs, case.key, case.hash(), st)
 }
@@ -184,7 +186,160 @@ fn check_scale(c: &pgverif::props::scale::ScaleCase, st: &mut Stats) -> Check {
         }
     }
     st.class(&format!("scale mapping under stress: {:?}", c.kind));
+    // on large mappings whatever a result object computes on first access takes long enough to be overlapped
+    shared_fresh_results(&bytes, 2, st)?;
     stress(&bytes, &qs, c.n as u64, fnv64(format!("{:?}{}", c.kind, c.n).as_bytes()), st)
+}
+
+/// Per-call state must be per call: every thread remaps its own DEEP typed trace (1200 cause levels, threads with a
+/// 256 MiB stack) at the same moment. Anything the library keeps per process instead of per call — a depth counter,
+/// a budget, a scratch stack — then sees the sum over all threads (16 x 1200 levels at once).
+fn deep_concurrent(bytes: &[u8], case: &MapCase, st: &mut Stats) -> Check {
+    let u = Universe::from_ast(&case.file, false);
+    if u.known_classes.is_empty() {
+        return Ok(());
+    }
+    let depth = 1200usize;
+    let mut cause: Option<Box<pgverif::api::TraceAst>> = None;
+    for i in (0..depth).rev() {
+        let class = u.known_classes[i % u.known_classes.len()].clone();
+        let method = if u.known_methods.is_empty() { "m".to_string() } else { u.known_methods[i % u.known_methods.len()].clone() };
+        let t = pgverif::api::TraceAst {
+            exception: Some(pgverif::api::ThrowableAst { class: class.clone(), message: if i % 3 == 0 { None } else { Some(format!("level {i}")) } }),
+            frames: vec![pgverif::api::FrameAst { class, method, file: Some("F.java".into()), line: 1 + (i as u64 % 7), params: None }],
+            cause,
+        };
+        cause = Some(Box::new(t));
+    }
+    let q = Q::Typed(*cause.unwrap());
+    let buf = write_cache(bytes)?;
+    const STACK: usize = 256 << 20;
+    for name in ["mapper", "cache"] {
+        let m = mapper(bytes, true)?;
+        let c = parse_cache(&buf)?;
+        let r: &(dyn Retracer + Sync) = if name == "mapper" { &m } else { &c };
+        let alone: u64 = std::thread::scope(|sc| std::thread::Builder::new().stack_size(STACK).spawn_scoped(sc, || answer(r, &q)).unwrap().join()).map_err(|_| Fail::new("thread-panic", format!("{name}: the deep typed trace panicked when remapped alone")))?;
+        for threads in [4usize, 16] {
+            let gate = std::sync::atomic::AtomicUsize::new(0);
+            let bad: Vec<Option<bool>> = std::thread::scope(|sc| {
+                let hs: Vec<_> = (0..threads)
+                    .map(|_| {
+                        let (gate, q) = (&gate, &q);
+                        std::thread::Builder::new()
+                            .stack_size(STACK)
+                            .spawn_scoped(sc, move || {
+                                let mut differs = false;
+                                for round in 0..3 {
+                                    gate.fetch_add(1, std::sync::atomic::Ordering::AcqRel);
+                                    let target = (round + 1) * threads;
+                                    let mut spins = 0u32;
+                                    while gate.load(std::sync::atomic::Ordering::Acquire) < target {
+                                        spins += 1;
+                                        if spins > 2000 {
+                                            std::thread::yield_now();
+                                        } else {
+                                            std::hint::spin_loop();
+                                        }
+                                    }
+                                    if answer(r, q) != alone {
+                                        differs = true;
+                                    }
+                                }
+                                differs
+                            })
+                            .unwrap()
+                    })
+                    .collect();
+                hs.into_iter().map(|h| h.join().ok()).collect()
+            });
+            st.evaluations += (threads * 3) as u64;
+            if bad.iter().any(|b| b.is_none()) {
+                return Err(Fail::new("thread-panic", format!("{name}: a thread remapping a {depth}-level typed trace panicked with {threads} threads")));
+            }
+            if bad.iter().any(|b| *b == Some(true)) {
+                return Err(Fail::new("concurrent-answer-differs", format!("{name}: {threads} threads remapping a {depth}-level typed trace at the same moment: one of them got a different answer than when issued alone")).with(json!({"impl": name, "threads": threads, "deep": depth})));
+            }
+        }
+    }
+    st.class("deep typed traces (1200 cause levels) remapped by 4 and 16 threads at the same moment");
+    Ok(())
+}
+
+/// Result objects whose FIRST read happens under contention: a fresh `MappingSummary`, `DeobfuscatedSignature` and
+/// remapped `StackTrace` (never read before) are shared by reference, all threads leave a spin gate together and read
+/// every accessor at once; each must see what a thread reading its own object alone sees. (A result object that fills
+/// itself in lazily on first access has its race exactly here; `shared_values` reads objects made per thread.)
+fn shared_fresh_results(bytes: &[u8], reps: usize, st: &mut Stats) -> Check {
+    let read_summary = |s: &proguard::MappingSummary| format!("{} {} {:?} {:?} {:?}", s.class_count(), s.method_count(), s.compiler(), s.compiler_version(), s.min_api());
+    let read_sig = |d: &Option<proguard::DeobfuscatedSignature>| d.as_ref().map(|d| format!("{} | {} | {:?} | {d}", d.format_signature(), d.return_type(), d.parameters_types().collect::<Vec<_>>()));
+    let mapping = proguard::ProguardMapping::new(bytes);
+    let mapper = proguard::ProguardMapper::new(proguard::ProguardMapping::new(bytes));
+    let trace_text = "a.b: boom\n    at a.b.c(F.java:3)\n    at x.y(G:7)\nCaused by: c.d\n    at e.f(H:1)\n";
+    let trace = proguard::StackTrace::try_parse(trace_text.as_bytes()).unwrap();
+    let alone_summary = read_summary(&mapping.summary());
+    let alone_sig = read_sig(&mapper.deobfuscate_signature("(La;I[[J)Lb;"));
+    let alone_trace = mapper.remap_stacktrace_typed(&trace).to_string();
+    for threads in [2usize, 8, 16] {
+        for _rep in 0..reps {
+            let summary = mapping.summary();
+            let sig = mapper.deobfuscate_signature("(La;I[[J)Lb;");
+            let remapped = mapper.remap_stacktrace_typed(&trace);
+            let gate = std::sync::atomic::AtomicUsize::new(0);
+            let bad: Vec<Option<String>> = std::thread::scope(|sc| {
+                let hs: Vec<_> = (0..threads)
+                    .map(|t| {
+                        let (summary, sig, remapped, gate) = (&summary, &sig, &remapped, &gate);
+                        let (alone_summary, alone_sig, alone_trace) = (&alone_summary, &alone_sig, &alone_trace);
+                        sc.spawn(move || {
+                            gate.fetch_add(1, std::sync::atomic::Ordering::AcqRel);
+                            let mut spins = 0u32;
+                            while gate.load(std::sync::atomic::Ordering::Acquire) < threads {
+                                spins += 1;
+                                if spins > 2000 {
+                                    std::thread::yield_now();
+                                } else {
+                                    std::hint::spin_loop();
+                                }
+                            }
+                            // threads start with different objects so that each object's first read has company
+                            for k in 0..3 {
+                                match (t + k) % 3 {
+                                    0 => {
+                                        for _ in 0..2 {
+                                            let got = read_summary(summary);
+                                            if &got != alone_summary {
+                                                return Some(format!("shared fresh MappingSummary read {got:?}, alone it reads {alone_summary:?}"));
+                                            }
+                                        }
+                                    }
+                                    1 => {
+                                        let got = read_sig(sig);
+                                        if &got != alone_sig {
+                                            return Some(format!("shared fresh DeobfuscatedSignature read {got:?}, alone it reads {alone_sig:?}"));
+                                        }
+                                    }
+                                    _ => {
+                                        let got = remapped.to_string();
+                                        if &got != alone_trace {
+                                            return Some(format!("shared fresh StackTrace printed {got:?}, alone it prints {alone_trace:?}"));
+                                        }
+                                    }
+                                }
+                            }
+                            None
+                        })
+                    })
+                    .collect();
+                hs.into_iter().map(|h| h.join().unwrap_or(Some("a thread panicked".into()))).collect()
+            });
+            st.evaluations += (threads * 4) as u64;
+            if let Some(Some(msg)) = bad.into_iter().find(|b| b.is_some()) {
+                return Err(Fail::new("shared-fresh-result-differs", format!("with {threads} threads: {msg}")).with(json!({"threads": threads})));
+            }
+        }
+    }
+    st.class("fresh result objects (MappingSummary, DeobfuscatedSignature, StackTrace) first read under lockstep");
+    Ok(())
 }
 
 /// The `ProguardMapping` and the *result objects* are part of the statement as well: one mapping shared by reference
